@@ -139,13 +139,179 @@ def probcover_cases(ctx, count):
 
 def loops_correspondence(ctx):
     count = 150 if ctx.is_quick else 2000
-    for name, gen, fn in (("CoreSet", coreset_cases, "check_coreset"), ("ProbCover", probcover_cases, "check_probcover")):
+    for name, gen, fn in (("CoreSet", coreset_cases, "check_coreset"), ("ProbCover", probcover_cases, "check_probcover"),
+                          ("Clue/DiscriminativeAL", oracle_loop_cases, "check_oracle_loop"), ("GreedySamplingX", gsx_cases, "check_gsx")):
         terms, meta = gen(ctx, count)
-        bad, err = ctx.coq_eval_cases("loop_" + name.lower(), IMPORTS, fn, terms, chunk=100)
+        bad, err = ctx.coq_eval_cases("loop_" + fn, IMPORTS, fn, terms, chunk=100)
         if err:
             ctx.violation(name, "model_eval_failed", err, {}, found_input=False, what=f"Coq evaluation of {fn} failed")
         for i in bad[:5]:
-            ctx.violation(name, "loop_mismatch", f"Model/PoolLoops.v and {name}.query disagree on indices or utility rows", meta[i],
-                          found_input=False, what=f"correspondence Model/PoolLoops.v ({fn}) <-> {name}.query no longer holds")
+            comp = meta[i].get("strategy", name)
+            ctx.violation(comp, "loop_mismatch", f"Model/PoolLoops.v and {comp}.query disagree on indices or utility rows", meta[i],
+                          found_input=False, what=f"correspondence Model/PoolLoops.v ({fn}) <-> {comp}.query no longer holds")
         if meta:
-            ctx.sample({name + "_loop_case": meta[0]})
+            ctx.sample({name + "_loop_case": meta[0]}, limit=12)
+
+
+# ---------------------------------------------------------------------------------------------
+# loops masking an oracle row: Clue (scripted cluster algorithm), DiscriminativeAL(greedy_selection=False)
+# (scripted discriminator that is refitted after every pick)
+def _vrow_scaled(r, scale):
+    return listlit(["None" if v != v else f"(Some {zlit(int(round(v * scale)))})" for v in r])
+
+
+def _steps_scaled(idx, ut, scale):
+    return listlit([f"({natlit(int(p))}, {_vrow_scaled(ut[r], scale)})" for r, p in enumerate(np.asarray(idx).ravel())])
+
+
+_SCRIPTED = {}
+
+
+def _scripted_classes():
+    if _SCRIPTED:
+        return _SCRIPTED
+    from sklearn.base import BaseEstimator
+    from skactiveml.base import SkactivemlClassifier
+
+    class ScriptedClusters(BaseEstimator):
+        def __init__(self, n_clusters=2, table=None):
+            self.n_clusters, self.table = n_clusters, table
+
+        def fit_transform(self, X, y=None, sample_weight=None):
+            return np.asarray(self.table, dtype=float)[:len(X), :self.n_clusters]
+
+    class ScriptedDiscriminator(SkactivemlClassifier):
+        def __init__(self, table=None, classes=None, missing_label=np.nan, cost_matrix=None, random_state=None):
+            super().__init__(classes=classes, missing_label=missing_label, cost_matrix=cost_matrix, random_state=random_state)
+            self.table = table
+
+        def fit(self, X, y, sample_weight=None):
+            self.classes_ = np.array([0, 1])
+            self.n_fits_ = getattr(self, "n_fits_", 0) + 1
+            return self
+
+        def predict_proba(self, X):
+            row = self.table[self.n_fits_ - 1]
+            p = np.array([row[int(x[0])] for x in np.asarray(X)], dtype=float) / 4.0
+            return np.column_stack([1 - p, p])
+
+    _SCRIPTED.update(clusters=ScriptedClusters, disc=ScriptedDiscriminator)
+    return _SCRIPTED
+
+
+def oracle_loop_cases(ctx, count):
+    from skactiveml.classifier import ParzenWindowClassifier
+    from skactiveml.pool import Clue, DiscriminativeAL
+    S = _scripted_classes()
+    rng = ctx.rng("oracle_loops")
+    terms, meta = [], []
+    for h in range(count):
+        which = "Clue" if h % 2 == 0 else "DiscriminativeAL"
+        n = int(rng.integers(2, 8))
+        X = np.arange(n, dtype=float).reshape(-1, 1)
+        y = np.where(rng.random(n) < rng.choice([0.0, 0.3, 0.6]), float(rng.integers(0, 2)), np.nan)
+        if not np.isnan(y).any():
+            y[int(rng.integers(0, n))] = np.nan
+        cmode = str(rng.choice(["none", "idx"]))
+        if cmode == "none":
+            cand, mapping = None, [int(i) for i in np.flatnonzero(np.isnan(y))]
+        else:
+            cand = rng.integers(0, n, size=int(rng.integers(1, n + 2)))
+            mapping = sorted({int(i) for i in cand})
+        bs = int(rng.integers(1, len(mapping) + 3))
+        k = min(bs, len(mapping))
+        seed = int(rng.integers(0, 1000))
+        nvals = int(rng.choice([1, 2, 4]))                      # few distinct values: ties in every row
+        with warnings.catch_warnings():
+            warnings.simplefilter("ignore")
+            try:
+                if which == "Clue":
+                    T = rng.integers(0, nvals, size=(len(mapping), max(k, 1))).astype(int)   # dist[c, b]
+                    mk = lambda: Clue(cluster_algo=S["clusters"], cluster_algo_dict={"table": T.tolist()}, random_state=seed)
+                    kw = {"clf": ParzenWindowClassifier(classes=[0, 1], random_state=seed)}
+                    table = [[-int(T[c, b]) for c in range(len(mapping))] for b in range(k)]
+                    scale = 1
+                else:
+                    T = rng.integers(0, nvals, size=(max(k, 1), n)).astype(int)               # proba*4 of sample i after fit b
+                    mk = lambda: DiscriminativeAL(greedy_selection=False, random_state=seed)
+                    kw = {"discriminator": S["disc"](table=T.tolist(), classes=[0, 1])}
+                    table = [[int(T[b, i]) for i in mapping] for b in range(k)]
+                    scale = 4
+                idx, ut = mk().query(X, y, candidates=cand, batch_size=bs, return_utilities=True, **kw)
+                twin = mk()
+                twin._validate_data(X, y, cand, bs, True)
+            except Exception as e:
+                ctx.violation(which, "exception:" + type(e).__name__, repr(e)[:300],
+                              {"y": [None if v != v else v for v in y], "candidates": None if cand is None else np.asarray(cand).tolist(), "batch_size": bs, "seed": seed},
+                              what=f"{which}.query raised {type(e).__name__} with a scripted numeric layer")
+                continue
+        cand_space = which == "DiscriminativeAL"       # its loop runs over the candidates and is remapped afterwards
+        noises = [twin.random_state_.random(len(mapping) if cand_space else n) for _ in range(k)]
+        ut = np.asarray(ut, dtype=float)
+        tab = listlit([listlit([f"(Some {zlit(v)})" for v in r]) for r in table])
+        terms.append(f"({blit(cand_space)}, {natlit(n)}, {natlist(mapping)}, {tab}, {natlit(k)}, {_nz(noises)}, {_steps_scaled(idx, ut, scale)})")
+        meta.append({"strategy": which, "table": T.tolist(), "y": [None if v != v else v for v in y], "candidates_mode": cmode,
+                     "candidates": None if cand is None else np.asarray(cand).tolist(), "batch_size": bs, "seed": seed,
+                     "returned_indices": np.asarray(idx).tolist()})
+        ctx.count(f"{which}_loop_correspondence")
+        ctx.hist[f"{which.lower()}:{cmode}:values{nvals}"] += 1
+        if k >= 2:
+            ctx.nontriv((which, T.tobytes(), y.tobytes(), cmode, repr(meta[-1]["candidates"]), bs, seed))
+    return terms, meta
+
+
+def gsx_cases(ctx, count):
+    from skactiveml.pool import GreedySamplingX
+    rng = ctx.rng("gsx")
+    terms, meta = [], []
+    for h in range(count):
+        n = int(rng.integers(2, 8))
+        span = int(rng.choice([1, 2, 3, 6]))
+        x = rng.integers(0, span, size=n)
+        X = x.astype(float).reshape(-1, 1)
+        y = np.where(rng.random(n) < rng.choice([0.0, 0.0, 0.3, 0.6]), np.round(rng.normal(), 1), np.nan)   # cold start is frequent
+        if not np.isnan(y).any():
+            y[int(rng.integers(0, n))] = np.nan
+        lab = [int(i) for i in np.flatnonzero(~np.isnan(y))]
+        cmode = str(rng.choice(["none", "idx", "feat"]))
+        if cmode == "none":
+            cand, mapping = None, [int(i) for i in np.flatnonzero(np.isnan(y))]
+        elif cmode == "idx":
+            cand = rng.integers(0, n, size=int(rng.integers(1, n + 2)))
+            mapping = sorted({int(i) for i in cand})
+        else:
+            mc = int(rng.integers(1, 6))
+            xc = rng.integers(0, span + 1, size=mc)
+            cand, mapping = xc.astype(float).reshape(-1, 1), None
+        if mapping is not None:
+            xcand, xall, cidx, m = x[mapping], x, list(mapping), len(mapping)
+        else:
+            xcand, xall, cidx, m = xc, np.concatenate([x, xc]), [n + c for c in range(len(xc))], len(xc)
+        bs = int(rng.integers(1, m + 3))
+        k = min(bs, m)
+        seed = int(rng.integers(0, 1000))
+        with warnings.catch_warnings():
+            warnings.simplefilter("ignore")
+            try:
+                idx, ut = GreedySamplingX(random_state=seed).query(X, y, candidates=cand, batch_size=bs, return_utilities=True)
+            except Exception as e:
+                ctx.violation("GreedySamplingX", "exception:" + type(e).__name__, repr(e)[:300],
+                              {"x": x.tolist(), "y": [None if v != v else v for v in y], "candidates": None if cand is None else np.asarray(cand).tolist(),
+                               "batch_size": bs, "seed": seed}, what=f"GreedySamplingX.query raised {type(e).__name__} on integer points")
+                continue
+            twin = GreedySamplingX(random_state=seed)
+            twin._validate_data(X, y, cand, bs, True)
+        noises = [twin.random_state_.random(m - i) for i in range(k)]
+        D = np.abs(xcand[:, None] - xall[None, :]).astype(int)
+        ut = np.asarray(ut, dtype=float)
+        Dl = listlit([zlist(r) for r in D.tolist()])
+        terms.append(f"({Dl}, {natlit(n)}, {natlist(lab)}, {natlist(cidx)}, {natlit(m)}, {natlit(k)}, {_nz(noises)}, "
+                     f"{blit(mapping is not None)}, {natlit(n)}, {natlist(mapping or [])}, {_steps(idx, ut)})")
+        meta.append({"x": x.tolist(), "y": [None if v != v else v for v in y], "candidates_mode": cmode,
+                     "candidates": None if cand is None else np.asarray(cand).tolist(), "batch_size": bs, "seed": seed,
+                     "returned_indices": np.asarray(idx).tolist()})
+        ctx.count("gsx_loop_correspondence")
+        ctx.hist[f"gsx:{cmode}:{'cold' if not lab else 'warm'}"] += 1
+        if k >= 2:
+            ctx.nontriv(("gsx", x.tobytes(), y.tobytes(), cmode, repr(meta[-1]["candidates"]), bs, seed))
+    return terms, meta
